@@ -29,6 +29,9 @@ REPEATS = [[12001, 2001, 12001, 12001, 2001],
            [206012, 12101, 12101, 2001], [1001, 206007, 1001, 12001, 1001]]
 
 
+MALFORMED = ['@[0]', '/001001[1:', '[0:x]', '@[1].001001', '/001001[0:2/001002', '@[-1', '/012001[2:5:']
+
+
 def same_nested(got, want, ents, col=0):
     """got: nested values from the implementation; want: nested flat positions from the specification."""
     if isinstance(want, list):
@@ -69,6 +72,13 @@ def check_record(rec):
             for q in rec['queries'][ti]:
                 expr = '@[%d]%s' % (s, tree.path_str(q['path']))
                 nq += 1
+                if nq % 4 == 0:
+                    # a malformed path in between (rejected half way through a selector or a slice): the querent lives on, and the
+                    # next query is answered as if nothing had happened
+                    try:
+                        querent.query(msg, MALFORMED[(nq // 4) % len(MALFORMED)])
+                    except Exception:
+                        pass
                 try:
                     qr = querent.query(msg, expr)
                     got = qr.all_values()
